@@ -407,6 +407,11 @@ pub fn m_frame(kind: Kind, buf: &[u8], cfg: u8, obs: &Obs, v: &mut Vec<Violation
                 }
             };
             let hdr0 = obs.headers.first().map(|h| h.name.off);
+            // With obsolete folding on, a whitespace-led line after a header line continues that
+            // header (C14) and is no line of its own; telling the two apart needs the grammar, so
+            // under S+F the whitespace-only candidate is only used for the line directly after the
+            // start line, and otherwise the rule is weakened to its sound core (below).
+            let fold = kind == Kind::Resp && cfg & 2 != 0;
             let mut ls = sl;
             let mut cand = None;
             while let Some(p) = buf[ls..].iter().position(|&b| b == b'\n') {
@@ -416,13 +421,28 @@ pub fn m_frame(kind: Kind, buf: &[u8], cfg: u8, obs: &Obs, v: &mut Vec<Violation
                     cand = Some(nl + 1);
                     break;
                 }
-                if s_opt && hdr0.map_or(true, |h| ls < h) && line_is_blank_ws(line) {
+                if s_opt && (!fold || ls == sl) && hdr0.map_or(true, |h| ls < h) && line_is_blank_ws(line) {
                     cand = Some(nl + 1);
                     break;
                 }
                 ls = nl + 1;
             }
-            if cand != Some(n) {
+            if s_opt && fold {
+                // sound core: the head never extends past the first strictly empty line, and the
+                // line it ends with is empty, or whitespace-only before the first stored header
+                let upper = cand.unwrap_or(usize::MAX);
+                let ok = if n == upper {
+                    true
+                } else if n < upper && n > sl && buf[n - 1] == b'\n' {
+                    let ls2 = buf[..n - 1].iter().rposition(|&b| b == b'\n').map(|p| p + 1).unwrap_or(0);
+                    hdr0.map_or(true, |h| ls2 < h) && line_is_blank_ws(&buf[ls2..n - 1])
+                } else {
+                    false
+                };
+                if !ok {
+                    bad(format!("Complete(n={}) but the first empty line after the start line ends at {:?} (folding and space-before-first-header on)", n, cand));
+                }
+            } else if cand != Some(n) {
                 bad(format!("Complete(n={}) but the first empty line after the start line ends at {:?}", n, cand));
             }
         }
